@@ -141,7 +141,7 @@ P("cfg_btn_press_count", CFG_BTN_PRESS_COUNT);
     m2 = re.findall(r"devconn->server_activity_timeout-(\d+)\)", dv)
     if not m1 or len(m2) != 2 or m2[0] != m2[1]:
         raise ExtractError("timer1_cb: window literals not recognised")
-    g = run_probe("p_wd", 'P("wd_timeout", WATCHDOG_TIMEOUT_SEC); P("wd_soft", WATCHDOG_SOFT_TIMEOUT_SEC);',
+    g = run_probe("p_wd", 'P("wd_timeout", WATCHDOG_TIMEOUT_SEC); P("wd_soft", WATCHDOG_SOFT_TIMEOUT_SEC); P("mqtt_recvbuf", MQTT_RECVBUF_SIZE);',
                   includes_c=["supla_esp.h"])
     g.update({"ka_reconnect": m1.group(1), "ka_window": m2[0]})
     cd = open(os.path.join(C.REPO, "src/user/supla_esp_countdown_timer.c")).read()
@@ -191,6 +191,11 @@ P("upd_attempts", 5);
         raise ExtractError("supla_esp_recv_callback: expected exactly one copy of new_cfg into supla_esp_cfg, found %d" % ncopy)
     a["form_commit_guarded"] = "true" if re.search(
         r"if \(1 == supla_esp_cfg_save\(&new_cfg\)\) \{ memcpy\(&supla_esp_cfg, &new_cfg, sizeof\(SuplaEspCfg\)\);", fm) else "false"
+    mq = re.sub(r"\s+", " ", open(os.path.join(C.REPO, "src/user/supla_esp_mqtt.c")).read())
+    for needle in ("unsigned short part = len < room ? len : (unsigned short)room;", "if (supla_esp_mqtt_vars->recv_gap) {",
+                   "if (len > 0) { supla_esp_mqtt_vars->recv_gap = 1; }", "size_t room = used < MQTT_RECVBUF_SIZE ? MQTT_RECVBUF_SIZE - used : 0;"):
+        if needle not in mq:
+            raise ExtractError("supla_esp_mqtt_conn_recv_cb: shape not recognised (missing: %s)" % needle)
     a["dc_connect_resets"] = "true" if re.search(r"devconn->registered = 0;.*supla_esp_srpc_init\(\);", mconn.group(1)) else "false"
     a.update(u)
     a.update(h)
@@ -266,6 +271,8 @@ def emit_consts():
         "def kaConsts : KaConsts :=",
         "  { pingWindow := %s, reconnectAdd := %s, wdTimeout := %s, wdSoft := %s }" % (
             k["ka_window"], k["ka_reconnect"], k["wd_timeout"], k["wd_soft"]),
+        "/-- MQTT_RECVBUF_SIZE: the receive buffer of the MQTT client -/",
+        "def mqttRecvBuf : Nat := %s" % k["mqtt_recvbuf"],
         "def cdParams : CdParams := { minP := %s, maxP := %s, div := %s }" % (k["cd_min"], k["cd_max"], k["cd_div"]),
         "def cfgLayout : CfgLayout := { recLen := %s, guidLen := %s, authLen := %s, tag := [83, 85, 80, 76, 65, 7] }" % (
             k["cfg_len"], k["cfg_guid"], k["cfg_auth"]),
